@@ -11,7 +11,7 @@ variable {cfg : Cfg} {bytesOf : Nat → Bytes} {s s' : St}
 
 theorem step_lockSend {t sid : Nat} (h : step cfg bytesOf s (.lockSend t sid) = some s') :
     (t ≠ 0 ∧ cfg.useQueue = false ∧ s.pc t = .idle ∧ sid = s.nsid ∧ (cfg.sendLocked = true → s.lock = none)) ∧
-    s' = { s with lock := some t, nsid := s.nsid + 1, handed := s.handed ++ [sid] }.setPc t (.made sid) := by
+    s' = { s with lock := some t, nsid := s.nsid + 1, handed := s.handed ++ [sid], xclosed := false }.setPc t (.made sid) := by
   simp only [step] at h
   split at h
   · next hg => exact ⟨hg, (Option.some.inj h).symm⟩
@@ -97,7 +97,7 @@ theorem step_autoFlushErr {t k : Nat} (h : step cfg bytesOf s (.autoFlushErr t k
   split at h
   · next sid w rest hp =>
     split at h
-    · next hg => exact ⟨sid, w, rest, hp, hg, (Option.some.inj h).symm⟩
+    · next hg => exact ⟨sid, w, rest, hp, hg.1, (Option.some.inj h).symm⟩
     · cases h
   · cases h
 
@@ -200,7 +200,7 @@ theorem queue_getNoWait_val {q : Queue.Q} {x : Nat} (h : (Queue.step q .getNoWai
 /-- GetTimeout returned an element: by C11's queue model it was the head -/
 theorem step_dequeue (h : step cfg bytesOf s .dequeue = some s') :
     ∃ sid q, s.pc 0 = .idle ∧ s.queue = sid :: q ∧ sid ≠ 0 ∧ (cfg.procLocked = true → s.lock = none) ∧
-      s' = { s with queue := q, lock := if cfg.procLocked = true then some 0 else s.lock }.setPc 0 (.made sid) := by
+      s' = { s with queue := q, lock := if cfg.procLocked = true then some 0 else s.lock, xclosed := false }.setPc 0 (.made sid) := by
   simp only [step] at h
   split at h
   · next sid hp hq =>
@@ -291,6 +291,56 @@ theorem step_reconfDialFail {t : Nat} (h : step cfg bytesOf s (.reconfDialFail t
   simp only [step] at h
   split at h
   · next hg => exact ⟨hg, (Option.some.inj h).symm⟩
+  · cases h
+
+theorem step_extClose {t : Nat} (h : step cfg bytesOf s (.extClose t) = some s') :
+    (t ≠ 0 ∧ s.pc t = .idle) ∧ s' = { s with conn := none, xclosed := true } := by
+  simp only [step] at h
+  split at h
+  · next hg => exact ⟨hg, (Option.some.inj h).symm⟩
+  · cases h
+
+theorem step_swallow {t : Nat} (h : step cfg bytesOf s (.swallow t) = some s') :
+    ∃ sid w, s.pc t = .made sid ∧ s.wr = some w ∧ cfg.recoverReports = false ∧ s.xclosed = true ∧ s.conn = none ∧
+      s' = s.setPc t (.wrote sid w) := by
+  simp only [step] at h
+  split at h
+  · next sid w hp hw =>
+    split at h
+    · next hg => exact ⟨sid, w, hp, hw, hg.1, hg.2.1, hg.2.2, (Option.some.inj h).symm⟩
+    · cases h
+  · cases h
+
+/-- bytes are pushed only by these four actions, always on a writer without a sticky error
+    (a failed Flush on a writer already in error pushes nothing) -/
+theorem step_autoFlush_clean {t k : Nat} (h : step cfg bytesOf s (.autoFlush t k) = some s') :
+    ∃ w, s.err.get w = false ∧ s' = s.push w k := by
+  simp only [step] at h
+  split at h
+  · next sid w rest hp =>
+    split at h
+    · next hg => exact ⟨w, hg.2.2, (Option.some.inj h).symm⟩
+    · cases h
+  · cases h
+
+theorem step_autoFlushErr_clean {t k : Nat} (h : step cfg bytesOf s (.autoFlushErr t k) = some s') :
+    ∃ sid w, s.err.get w = false ∧ s' = ((s.push w k).setErr w).setPc t (.failed sid) := by
+  simp only [step] at h
+  split at h
+  · next sid w rest hp =>
+    split at h
+    · next hg => exact ⟨sid, w, hg.2, (Option.some.inj h).symm⟩
+    · cases h
+  · cases h
+
+theorem step_flushErr_sticky {t k : Nat} (h : step cfg bytesOf s (.flushErr t k) = some s') :
+    ∃ sid w, (s.err.get w = true → k = 0) ∧ s' = (((s.push w k).setErr w).finish t sid false).procRel cfg.procLocked t := by
+  simp only [step] at h
+  split at h
+  · next sid w0 w hp hw =>
+    split at h
+    · next hg => exact ⟨sid, w, hg.2.1, (Option.some.inj h).symm⟩
+    · cases h
   · cases h
 
 end Tcp
